@@ -590,6 +590,15 @@ func (c *handlerCtx) bindReply(header Header) interface{} {
 
 	// unlock: handleReply
 	c.callCmd.mu.Lock()
+	select {
+	case <-c.callCmd.doneChan:
+		// the call is already complete (duplicated or late reply): ignore the frame
+		c.callCmd.mu.Unlock()
+		c.callCmd = nil
+		Warnf("repeated reply for completed call: %v", c.input)
+		return nil
+	default:
+	}
 	c.input.SetServiceMethod(c.callCmd.output.ServiceMethod())
 	c.swap = c.callCmd.swap
 	c.callCmd.inputBodyCodec = c.GetBodyCodec()
